@@ -119,12 +119,10 @@ class MarkerExpression(SingleMarker):
             ):
                 for _ in range(2 - dot_num):
                     pkg_version += ".0"
-                # the specifier spells the version differently from the atom
-                # now: let the atom derive its own view from the padded text
-                return MarkerExpression(name, pkg_spec.operator, pkg_version)
-            return MarkerExpression(
-                name, pkg_spec.operator, pkg_version, _specifier=specifier
-            )
+            # Do not cache `specifier` on the atom: it may spell its versions
+            # differently from the atom text ("3.10" vs "3.10.0"), and equal atoms
+            # must not carry specifier views that render or simplify differently.
+            return MarkerExpression(name, pkg_spec.operator, pkg_version)
         assert isinstance(specifier, GenericSpecifier)
         return MarkerExpression(
             name, specifier.op, specifier.value, _specifier=specifier
